@@ -821,6 +821,8 @@ func (t *loopTr) errLit(x *ast.UnaryExpr) (string, lkind) {
 	if !ok || len(cl.Elts) != 2 || !t.errAt {
 		t.fail(x, "%s", shape)
 	}
+	t.inErrLit++
+	defer func() { t.inErrLit-- }()
 	st := t.typeOf(cl).Type.Underlying().(*types.Struct)
 	elts := make([]ast.Expr, 2)
 	for i, el := range cl.Elts {
@@ -841,18 +843,49 @@ func (t *loopTr) errLit(x *ast.UnaryExpr) (string, lkind) {
 	if elts[0] == nil || elts[1] == nil {
 		t.fail(x, "%s", shape)
 	}
-	id, isId := unparen(elts[ei]).(*ast.Ident)
-	if !isId {
-		t.fail(x, "%s", shape)
-	}
-	v, isVar := t.info.Uses[id].(*types.Var)
-	if !isVar || v.Parent() != t.set.tp.tpkg.Scope() {
-		t.fail(x, "%s", shape)
-	}
-	name := t.set.errVarName(t, v, x)
+	name := t.errNameExpr(elts[ei], shape)
 	off, ok2 := t.expr(elts[oi])
 	if ok2 != kInt {
 		t.fail(x, "%s", shape)
 	}
-	return fmt.Sprintf("(some (%s, %s))", leanString(name), off), kErrAt
+	if t.errOpt {
+		return fmt.Sprintf("(some (%s, some %s))", name, off), kErrOpt
+	}
+	return fmt.Sprintf("(some (%s, %s))", name, off), kErrAt
+}
+
+// errNameExpr renders, as a Lean String, the name of the error variable wrapped by the error operand of &T{err, off}:
+// ErrX itself, fmt.Errorf("…%w…", …, ErrX, …), or e.Unwrap() for an e bound by errors.As (the name the callee gave).
+func (t *loopTr) errNameExpr(e ast.Expr, shape string) string {
+	e = unparen(e)
+	if id, isId := e.(*ast.Ident); isId {
+		if v, isVar := t.info.Uses[id].(*types.Var); isVar && v.Parent() == t.set.tp.tpkg.Scope() {
+			return leanString(t.set.errVarName(t, v, e))
+		}
+	}
+	if c, isCall := e.(*ast.CallExpr); isCall {
+		if sel, isSel := unparen(c.Fun).(*ast.SelectorExpr); isSel {
+			if f, ok := t.info.Uses[sel.Sel].(*types.Func); ok && f.Pkg() != nil && f.Pkg().Path() == "fmt" && f.Name() == "Errorf" {
+				// evaluate the other operands for their checks; the name is that of the %w operand
+				val, _ := t.libCall(c, sel)
+				m := regexp.MustCompile(`"((?:[^"\\]|\\.)*)"`).FindString(val)
+				if m == "" {
+					t.fail(e, "%s", shape)
+				}
+				return m
+			}
+			if sel.Sel.Name == "Unwrap" && len(c.Args) == 0 {
+				if id, ok := unparen(sel.X).(*ast.Ident); ok {
+					if src := t.asBound[t.objOf(id)]; src != nil {
+						if t.errOpt {
+							return "(Go.errName " + t.vars[src] + ")"
+						}
+						return "(Go.errNameAt " + t.vars[src] + ")"
+					}
+				}
+			}
+		}
+	}
+	t.fail(e, "%s", shape)
+	return ""
 }
